@@ -182,7 +182,9 @@ class World:
         for name in LOCALES:
             __import__("pendulum.locales.%s.locale" % name)
             __import__("pendulum.locales.%s.custom" % name)
-        self._traveller = time_machine.travel(EPOCH, tick=False)
+        # naive destinations: time_machine reads them as UTC *without* touching os.environ["TZ"]
+        # (an aware UTC destination would reset the C library's zone to UTC on every move)
+        self._traveller = time_machine.travel(EPOCH.replace(tzinfo=None), tick=False)
         self._coords = self._traveller.start()
         self.clock_us = 0
         self.ctz = None
@@ -193,7 +195,7 @@ class World:
     # ------------------------------------------------------------- registers
     def set_clock(self, us: int):
         self.clock_us = us
-        self._coords.move_to(EPOCH + _dt.timedelta(microseconds=us))
+        self._coords.move_to(EPOCH.replace(tzinfo=None) + _dt.timedelta(microseconds=us))
         self.clock_positions.add(us)
 
     def clock_dt(self):
